@@ -1,19 +1,63 @@
 """property -> units / harnesses / notes (DESIGN.md section 5)"""
-A_COMMON = [
- "A1 Verus (Z3) and Kani/CBMC are sound; Verus execution model: unbounded stack, no unwinding, machine integers with overflow as an error",
- "A2 std: str::char_indices / CharIndices::{next,clone} model (offsets are char boundaries, advance by len_utf8), str range indexing returns the sub-bytes, vstd's own specs",
- "A3 rust_decimal: from_str total and exact (dec_parse); checked_* / ordering contracts as stated in the prelude",
- "A6 the textual normalisations of DESIGN.md 3.2 preserve meaning (each application counted in normalisations_applied)",
-]
+A1 = "A1 Verus (Z3) is sound; execution model: unbounded stack, no unwinding through verified code, machine integers with overflow as an error (profile independent)"
+A2 = "A2 std: str::char_indices / CharIndices::{next,clone} model, str range indexing returns the sub-bytes, str::parse::<i64>, Display of str/String, vstd's own specs"
+A3 = "A3 rust_decimal: from_str total and exact (dec_parse); checked_{add,sub,mul,div,rem} = Some(exact) iff representable; ordering and == numeric; normalize/to_string/from_iN as stated in the prelude"
+A4 = "A4 registries frozen during one parse/evaluation; handlers and context functions deterministic functions of their arguments, not touching engine state"
+A5 = "A5 pinned trusted primitives (*Manager::{new,register,get,exist}, Context::{new,set,get,value}, init::init) are one HashMap lookup/insert under a lock"
+A6 = "A6 the textual normalisations of DESIGN.md 3.2 preserve meaning (each application counted in normalisations_applied)"
+A7 = "A7 Tokenizer::next is a deterministic function of (input, cursor, registry): one assumed ensures clause over tk(bytes, off)"
+A8 = "A8 a &str is determined by its characters (a@ == b@ ==> a == b)"
+NC_COMPLETE = "completeness: that every sentence of the grammar is accepted (the parser theorem is a soundness theorem)"
 PROPS = {
- 'C01': dict(units=['tp'], level='proof',
-    assumptions=A_COMMON + ["A7 Tokenizer::next is a deterministic function of (input, cursor, registry) - one assumed ensures clause"],
-    not_covered=["stack exhaustion (the verifier's model has an unbounded stack)", "describe() (C18)", "Decimal::from_str totality (A3)"]),
- 'C02': dict(units=['tp'], level='proof', assumptions=A_COMMON + ["A7 (see C01)", "axiom_bp: binding powers of registered infix operators are (2p, 2p+-1), p >= 1 - discharged in unit L for the real get_precidence"],
-    not_covered=["uniqueness of the derivation witness", "completeness (that every sentence of the grammar is accepted)"]),
- 'C05': dict(units=['tp'], level='proof', assumptions=A_COMMON + ["A7 (see C01)"], not_covered=["completeness"]),
- 'C10': dict(units=['tp'], level='proof', assumptions=A_COMMON, not_covered=["classification rules (v): thorough tier"]),
+ 'C01': dict(units=['tp', 'pr', 'lb'], assumptions=[A1, A2, A3, A6, A7],
+    level_text="Unbounded proof (Verus) on the extracted real source: every slice/index/arithmetic/unwrap precondition in tokenizer, parser and printer is discharged and every loop and recursion has a decreasing measure, for all UTF-8 inputs. Stack depth is outside the verifier's model (known finding).",
+    level_note="Assumes A1 A2 A3 A6 A7 (DESIGN.md 4); describe() is covered under C18; stack exhaustion is a known finding outside the model.",
+    not_covered=["stack exhaustion (the verifier's model has an unbounded stack; known finding)", "describe() (C18)", "Decimal::from_str totality (A3)"]),
+ 'C02': dict(units=['tp', 'lb'], assumptions=[A1, A2, A3, A6, A7, A8, "TP uses axiom_bp (binding powers of a registered infix operator are even >= 2 / odd >= 1); unit LB proves it (lemma_bp) for the real get_precidence under the domain 0 < p <= 10^9"],
+    level_text="Unbounded proof: every Parser::parse_* function returns Ok only with a ghost derivation witness that chains the tokenizer's tokens from the entry token to the exit token, carries the left/right spine precedence constraints under which the tree is unique, and whose AST is the result (loop invariant of the Pratt loop, all productions, any size).",
+    level_note="Soundness of grouping; uniqueness of the witness and completeness of acceptance are not proved. Assumes A1 A2 A3 A6 A7 A8.",
+    not_covered=["uniqueness of the derivation witness", NC_COMPLETE]),
+ 'C03': dict(units=['hv', 'ev'], assumptions=[A1, A2, A3, A4, A5, A6],
+    level_text="Unbounded proof: each of the 23 built-in handlers (lifted byte-for-byte from the init() functions) agrees with a spec function written from the README/property for every operand value, including every wrongly-typed operand; the evaluator agrees with the big-step semantics sem for every AST and context.",
+    level_note="Decimal arithmetic itself is the dependency's (A3: uninterpreted dec_add...); user handlers are opaque (A4).",
+    not_covered=["user-registered handlers", "float()"]),
+ 'C04': dict(units=['hv'], assumptions=[A1, A2, A3, A6],
+    level_text="Unbounded proof: inside every built-in handler each panicking operation has its precondition discharged (checked Decimal ops, shift count in 0..=63, non-empty aggregate) and the postcondition forces Ok(exact) or Err; integer() is Ok(n) exactly for integral in-range numbers.",
+    level_note="Panicking Decimal operators have no dischargeable precondition in the model, so any reintroduction fails; A3 for the checked forms.",
+    not_covered=["user-registered handlers"]),
+ 'C05': dict(units=['tp'], assumptions=[A1, A2, A3, A6, A7, A8],
+    level_text="Unbounded proof (the parser theorem, see C02): an accepted input is exactly a token chain of the documented grammar to EOF - every separator/delimiter/operator token has the required text, nothing dropped, nothing consumed as something else; expect() is Ok only on a match; string/number scanners return Ok only for a terminated string / a valid decimal.",
+    level_note="Assumes A1 A2 A3 A6 A7 A8.", not_covered=[NC_COMPLETE]),
+ 'C06': dict(units=['ev', 'lb', 'hv'], assumptions=[A1, A4, A5, A6],
+    level_text="Unbounded proof: exec_binary's SETTER branch, exec_chain, exec_reference against sem (bind after both sides are evaluated, under the target name, result None, failure = no insertion, non-reference target = Err); Context::set_variable/get_variable against the map view; the ten compound handlers have the same spec function as their plain operator.",
+    level_note="Context primitives set/get/value trusted over a map view (A5).", not_covered=["the HashMap behind Context (A5)"]),
+ 'C07': dict(units=['ev'], assumptions=[A1, A4, A5, A6],
+    level_text="Unbounded proof: exec returns sem(ast, ctx).0 and leaves ctx == sem(ast, ctx).1, where sem threads the state left to right through operands, arguments, elements, entries (key then value) and statements, stops at the first Err, applies a function after its arguments and evaluates one branch of a conditional.",
+    level_note="Multiplicity of calls to an opaque handler with equal arguments is invisible (A4); order is decided through context effects and data flow.",
+    not_covered=["number of invocations of an opaque handler with identical arguments (A4)"]),
+ 'C08': dict(units=['lb', 'ev'], assumptions=[A1, A4, A5, A6, A8],
+    level_text="Unbounded proof: get_precidence returns (2p, 2p+-1) of the registered entry, lemma_bp_gate shows gate and loop test agree with the registered order for all precedences 0 < p <= 10^9 incl. adjacent ones; register_* and parse_expression establish init() before touching a registry; exec_function dispatches context function, then global, else Err; get_handler/get_op_type return the registered fields.",
+    level_note="'most recently registered' over a history relies on HashMap::insert replacing (A5); interleavings are not quantified.",
+    not_covered=["histories of registrations (A5)", "interleavings"]),
+ 'C09': dict(units=['tp', 'hv', 'ev'], assumptions=[A1, A2, A3, A6],
+    level_text="Unbounded proof: number_token hands exactly the maximal run to Decimal::from_str and the token carries dec_parse(slice); parse_token/exec_literal pass the Decimal through unchanged; + - * % comparisons and equality (and compound forms) return the checked/ordering result on the operands obtained by decimal() - no float()/integer()/rescale on the path.",
+    level_note="Exactness of the decimal operations themselves is A3.", not_covered=["rust_decimal internals (A3)"]),
+ 'C10': dict(units=['tp', 'lb'], assumptions=[A1, A2, A3, A6],
+    level_text="Unbounded proof: Tokenizer::next ensures tok_post: only whitespace skipped, span in bounds on char boundaries, cursor at span end, token text = source slice (string payload between equal quotes with no such quote inside, number parses to the carried Decimal); keyword::is_op is the disjunction of the registry predicates.",
+    level_note="Classification rules beyond text/span (longest operator, word operators, function look-ahead) are not all proved.",
+    not_covered=["classification clauses (v) of DESIGN.md C10"]),
+ 'C12': dict(units=['pr'], assumptions=[A1, A2, A3, A6],
+    level_text="Unbounded proof: expr(t)@ == render(t) for every AST, render written from the grammar (parenthesisation rules per position, quote choice, separators). That render inverts the parser needs parser completeness (not proved).",
+    level_note="Printer against a spec function; see DESIGN.md 5 C12.", not_covered=["that render inverts the real parser in general (needs completeness)"]),
+ 'C17': dict(units=['hv'], assumptions=[A1, A2, A3, A6],
+    level_text="Unbounded proof: every accessor is Ok on exactly one variant and returns the payload; Value::from(n) denotes n for i8..i64/u8..u64 (i128/u128 beyond 96 bits: known finding); integer() returns n for every number that is the integer n in i64 range whatever its scale, Err otherwise.",
+    level_note="from_iN/normalize/to_string/parse contracts are A3/A2.", not_covered=["f32/f64 conversions"]),
+ 'C18': dict(units=['ds'], assumptions=[A1, A5, A6],
+    level_text="Unbounded proof: each of the nine get_*_descriptor returns the entry stored under exactly (kind, name) if it has that kind, else the documented default; each set_* writes exactly that key; a registration is local to its key. describe() itself (iterator adapters, dyn calls) is outside Verus's reach.",
+    level_note="Store behind trusted new/set/get over a map view (A5); describe() not covered.", not_covered=["ExprAST::describe (dispatch per node, no-panic)", "default_*_descriptor bodies"]),
 }
+for _p in PROPS.values():
+    _p.setdefault('level', 'proof')
 
 NOT_APPLICABLE = {
  'C11': "relates two runs on different inputs; needs uniqueness of derivation witnesses and a functional tokenizer spec, which no per-call contract within reach expresses (DESIGN.md 5, C11); its local ingredients are obligations of C10/C02/C05",
